@@ -96,12 +96,15 @@ def showOptPrec : Option Prec → String
   | none => "none"
   | some p => p.show
 
-/-- trace of a history: per call `rebuilt realloc | at use: matrices_dtype M.dtype intermediate_dtype buffer.dtype | left: the same` -/
+/-- trace of a history: per call `rebuilt realloc | at use: matrices_dtype M.dtype intermediate_dtype buffer.dtype | left: the same |
+usable` where `usable` says whether `mftResult` could take the products from the state at use (matrices and, on two
+axes, buffer of the precision of the call) -/
 def mftTrace (c : MftCfg) (ds : List Prec) : List String :=
-  (mftHistory c (fun d => d) (MftSt.init (α := Prec)) ds).map fun r =>
+  ((mftHistory c (fun d => d) (MftSt.init (α := Prec)) ds).zip ds).map fun (r, d) =>
     let su := r.1; let sl := r.2.1; let ev := r.2.2
+    let usable := (mftResult c (fun (a : Prec) (d' : Prec) (_ : Unit) => a == d') su d ()) == some true
     let sh := fun (s : MftSt Prec) =>
       s!"{showOptPrec s.matricesDtype},{showOptPrec (s.matrices.map Prod.fst)},{showOptPrec s.interDtype},{showOptPrec s.inter}"
-    s!"{if ev.rebuilt then 1 else 0}{if ev.realloc then 1 else 0}/{sh su}/{sh sl}"
+    s!"{if ev.rebuilt then 1 else 0}{if ev.realloc then 1 else 0}/{sh su}/{sh sl}/{if usable then 1 else 0}"
 
 end HcipyVerif.Fft
